@@ -655,7 +655,66 @@ func vfC10CompactionVariant(c *vfC10Case, ctx *vfCtx, root string) *vfViolation 
 			snaps = append(snaps, snap{name, vfReadDirImage(dir)})
 		}
 	})
+	// in every second case a background flush of two more documents is parked half-way (segment files
+	// created and written, segment not yet registered) while the compaction runs
+	var lateDocs map[uint32]*vfStoreDoc
+	var parked, release chan struct{}
+	if c.CompactExtra%2 == 1 {
+		lateDocs = map[uint32]*vfStoreDoc{}
+		for j := 0; j < 2; j++ {
+			n := 1000 + j
+			d := &vfStoreDoc{ID: uint32(1<<30 + n), N: n, Vec: make([]float32, conf.Dim), Word: "zeta"}
+			d.Vec[0], d.Vec[len(d.Vec)-1] = float32(n), 2
+			if _, err := vfStoreAdd(st, &conf, d); err != nil {
+				return vfFail("add: %v", err)
+			}
+			everAdded[d.ID] = true
+			lateDocs[d.ID] = d
+		}
+		parked, release = make(chan struct{}), make(chan struct{})
+		var first atomic.Bool
+		inner := func(name string, args ...any) {
+			if name == "flush:written" && first.CompareAndSwap(false, true) {
+				close(parked)
+				<-release
+			}
+		}
+		prevHook := func(name string, args ...any) {
+			if name == "compact:before_delete" && len(args) > 0 {
+				if id, ok := args[0].(uint64); ok {
+					inputs[id] = true
+				}
+			}
+			if strings.HasPrefix(name, "compact:") || strings.HasPrefix(name, "delete:") {
+				snaps = append(snaps, snap{name, vfReadDirImage(dir)})
+			}
+		}
+		vfInstallHook(func(name string, args ...any) {
+			inner(name, args...)
+			prevHook(name, args...)
+		})
+		vfStoreRotate(st)
+		vfStoreKickFlushWorker(st)
+		select {
+		case <-parked:
+		case <-time.After(60 * time.Second):
+			close(release)
+			return vfFail("the background flush worker did not reach flush:written within 60 s")
+		}
+		ctx.Class("compaction_while_a_background_flush_is_parked_at_flush:written")
+	}
 	cerr := vfStoreCompactNow(st)
+	if release != nil {
+		close(release)
+		// the worker completes its flush first (an explicit Flush racing with it would write the same
+		// memtable a second time and hide a loss); the explicit Flush afterwards has nothing left to write
+		if !vfWaitUntil(func() bool { return vfStoreFrozenCount(st) == 0 }, 30*time.Second) {
+			return vfFail("the parked background flush did not finish within 30 s of being released")
+		}
+		if err := st.Flush(); err != nil {
+			return vfFail("Flush after the compaction: %v", err)
+		}
+	}
 	vfInstallHook(nil)
 	if cerr != nil {
 		return vfFail("compaction of %d of %d segments failed: %v", conf.CompThr, nSeg, cerr)
@@ -684,6 +743,10 @@ func vfC10CompactionVariant(c *vfC10Case, ctx *vfCtx, root string) *vfViolation 
 	if len(survivors) == 0 {
 		return vfFail("a compaction with threshold %d consumed all %d segments", conf.CompThr, nSeg)
 	}
+	// the documents whose flush overlapped the compaction are acknowledged (Flush returned nil afterwards)
+	for id, d := range lateDocs {
+		survivors[id] = d
+	}
 	// the running store still serves the documents of the segments it did not compact
 	if v := vfCheckDurable(st, &conf, survivors, everAdded, "after a compaction that did not touch their segments"); v != nil {
 		return v
@@ -693,8 +756,18 @@ func vfC10CompactionVariant(c *vfC10Case, ctx *vfCtx, root string) *vfViolation 
 	if err := st.Close(); err != nil {
 		return vfFail("Close: %v", err)
 	}
+	early := map[uint32]*vfStoreDoc{}
+	for id, d := range survivors {
+		if lateDocs[id] == nil {
+			early[id] = d
+		}
+	}
 	for i, s := range snaps {
-		if v := vfCheckCrashImage(root, i+1, s.img, &conf, survivors, map[uint32]*vfStoreDoc{}, everAdded, "compaction of "+fmt.Sprint(conf.CompThr)+" of "+fmt.Sprint(nSeg)+" segments, as found at "+s.point); v != nil {
+		need := early
+		if s.point == "compact:returned" {
+			need = survivors
+		}
+		if v := vfCheckCrashImage(root, i+1, s.img, &conf, need, map[uint32]*vfStoreDoc{}, everAdded, "compaction of "+fmt.Sprint(conf.CompThr)+" of "+fmt.Sprint(nSeg)+" segments, as found at "+s.point); v != nil {
 			return v
 		}
 	}
